@@ -148,7 +148,13 @@ def canon_real(events, folder):
             v = decode(mp, open_.pop(e[1], b""))
             out.append(["write", mp, TORN if v == TORN else canon(v)])
         elif e[0] == "rename":
-            out.append(["rename", model_path(rel), model_path(os.path.relpath(e[2], folder))])
+            rel2 = os.path.relpath(e[2], folder)
+            if rel == ".":
+                out.append(["rmtree"])      # the run folder itself is moved away (`_cleanup_run_folder`): for the folder that is `rmtree`
+            elif rel2.startswith(".."):
+                out.append(["unlink", model_path(rel)])     # moved out of the run folder = gone
+            else:
+                out.append(["rename", model_path(rel), model_path(rel2)])
         elif e[0] == "unlink":
             out.append(["unlink", model_path(rel)])
     if open_:
@@ -207,10 +213,17 @@ def crash_points(events):
     return pts
 
 
+def _inside(p, root):
+    return p == root or p.startswith(root + os.sep)
+
+
 def materialise(events, k, src, dst, tear=None, keep=False):
     """Apply the first k events (and `tear` bytes of event k when it is a write) to the folder `dst` (emptied first unless
     `keep`).  `src` is the folder the trace was taken in; it must have the same length as `dst` because `run_info.json`
-    records absolute paths (they are rewritten in the written bytes)."""
+    records absolute paths (they are rewritten in the written bytes).
+    Whatever the traced process did is replayed or refused with `Unmodelled` (never another exception): a rename of the run folder
+    itself, or of anything to a place outside it (the trash sibling of `_cleanup_run_folder`), removes the source - several states of
+    one trace are materialised concurrently and none of them may touch a path outside its own `dst`."""
     assert len(src) == len(dst), (src, dst)
     sb, db = src.encode(), dst.encode()
     if not keep:
@@ -218,12 +231,18 @@ def materialise(events, k, src, dst, tear=None, keep=False):
     content = {}
 
     def mp(p):
-        return dst + p[len(src):] if p.startswith(src) else p
+        return dst + p[len(src):] if _inside(p, src) else p
 
     def flush(p):
         os.makedirs(os.path.dirname(p), exist_ok=True)
         with open(p, "wb") as fh:
             fh.write(content[p])
+
+    def remove(p):
+        if os.path.isdir(p) and not os.path.islink(p):
+            shutil.rmtree(p, ignore_errors=True)
+        elif os.path.lexists(p):
+            os.remove(p)
 
     seq = list(events[:k])
     if tear is not None and k < len(events) and events[k][0] == "write":
@@ -232,27 +251,146 @@ def materialise(events, k, src, dst, tear=None, keep=False):
         if e[0] == "call":
             continue
         p = mp(e[1])
-        if e[0] == "mkdir":
-            os.makedirs(p, exist_ok=True)
-        elif e[0] == "open":
-            content[p] = b""
-            flush(p)
+        try:
+            if not _inside(p, dst):
+                if e[0] == "rename" and _inside(mp(e[2]), dst):
+                    raise Unmodelled(f"replay: {e[1]} is moved into the run folder from outside")
+                continue                    # nothing of the run folder is touched
+            if e[0] == "mkdir":
+                os.makedirs(p, exist_ok=True)
+            elif e[0] == "open":
+                content[p] = b""
+                flush(p)
+            elif e[0] == "write":
+                if p not in content:
+                    content[p] = open(p, "rb").read() if os.path.exists(p) else b""
+                content[p] += e[2].replace(sb, db)
+                flush(p)
+            elif e[0] == "close":
+                content.pop(p, None)
+            elif e[0] == "rename":
+                q = mp(e[2])
+                if p == dst or not _inside(q, dst):
+                    remove(p)               # the folder (or a file of it) is moved away
+                    for c in [c for c in content if _inside(c, p)]:
+                        content.pop(c)
+                else:
+                    if os.path.isdir(q) and not os.path.isdir(p):
+                        raise Unmodelled(f"replay: rename of the file {e[1]} onto a directory")
+                    os.replace(p, q)
+                content.pop(p, None)
+            elif e[0] == "unlink":
+                if os.path.lexists(p):
+                    os.remove(p)
+            elif e[0] == "rmdir":
+                if os.path.isdir(p):
+                    shutil.rmtree(p, ignore_errors=True)
+        except OSError as x:
+            raise Unmodelled(f"replay of {e[0]} {os.path.relpath(e[1], src)} fails: {type(x).__name__} {x.strerror}") from None
+
+
+def _simulate(events, folder, start_abs):
+    """Pure simulation of a trace on the abstract folder `start_abs` ({"files": [[path, "P" | {"C": v}]]} or None = empty): yields the
+    state {json model path: "C" | "P"} after 0, 1, ..., len(events) events (the same dict object, updated in place)."""
+    state = {json.dumps(p): ("P" if c == "P" else "C") for p, c in (start_abs or {"files": []})["files"]}
+
+    def key(path):
+        try:
+            return json.dumps(model_path(os.path.relpath(path, folder)))
+        except Unmodelled:
+            return "?" + path
+
+    yield state
+    for e in events:
+        if e[0] == "open":
+            if e[2]:
+                state[key(e[1])] = "P"
+            else:
+                state.setdefault(key(e[1]), "P")
         elif e[0] == "write":
-            if p not in content:
-                content[p] = open(p, "rb").read() if os.path.exists(p) else b""
-            content[p] += e[2].replace(sb, db)
-            flush(p)
+            state[key(e[1])] = "P"
         elif e[0] == "close":
-            content.pop(p, None)
-        elif e[0] == "rename":
-            os.replace(p, mp(e[2]))
-            content.pop(p, None)
+            state[key(e[1])] = "C"
         elif e[0] == "unlink":
-            if os.path.exists(p):
-                os.remove(p)
-        elif e[0] == "rmdir":
-            if os.path.isdir(p):
-                shutil.rmtree(p, ignore_errors=True)
+            state.pop(key(e[1]), None)
+        elif e[0] in ("rename", "rmdir"):
+            rel, rel2 = os.path.relpath(e[1], folder), os.path.relpath(e[2], folder) if e[0] == "rename" else ".."
+            if rel == ".":
+                state.clear()
+            elif rel.startswith(".."):
+                pass        # the source is outside the folder (`materialise` refuses the prefix if the target is inside)
+            else:
+                src_key = key(e[1])
+                if src_key in state:
+                    c = state.pop(src_key)
+                    if not rel2.startswith(".."):
+                        state[key(e[2])] = c
+                else:       # a directory: everything below it goes
+                    pre = rel + os.sep
+                    for s in [s for s in state if _below(s, pre)]:
+                        state.pop(s)
+        yield state
+
+
+def _is_data(k):
+    return not k.startswith("?") and json.loads(k)[0] != "tmp"
+
+
+def lost_at(events, folder, start_abs):
+    """Which stored results does a prefix of the run LOSE?  `start_abs` = the abstraction of the folder the traced run started on.
+    Returns, for k = 0..len(events), the sorted list of non-temporary files that were complete at the start and are absent or
+    partial after the first k events (pure simulation of the trace: nothing is materialised).  A run of the repaired protocol
+    never loses one (Lean: `C05_stored_kept`); a run that does opens a window in which a second kill makes the next run redo
+    stored work."""
+    stored, out = None, []
+    for state in _simulate(events, folder, start_abs):
+        if stored is None:
+            stored = sorted(k for k, c in state.items() if c == "C" and _is_data(k))
+        out.append([p for p in stored if state.get(p) != "C"])
+    return out
+
+
+def ever_complete(events, folder, start_abs=None):
+    """For k = 0..len(events): the set of non-temporary files that were complete after SOME prefix of at most k events - what the run
+    had completely stored at any time before a kill after k events, also if the run itself removed it again later (an error handler
+    that tidies up, a rewrite that unlinks first): stored before the interruption, so not to be recomputed."""
+    out, acc = [], set()
+    for state in _simulate(events, folder, start_abs):
+        acc = acc | {k for k, c in state.items() if c == "C" and _is_data(k)}
+        out.append(acc)
+    return out
+
+
+_DIR_OF = {"inputs": lambda p: p[0] == "input", "defaults": lambda p: p[0] == "defaults", "outputs": lambda p: p[0] in ("cell", "single", "dictArr")}
+
+
+def _below(state_key, rel_prefix):
+    """Is the file with this (json) model path below the directory `rel_prefix` (relative, with trailing separator)?"""
+    if state_key.startswith("?"):
+        return False
+    p = base_path(json.loads(state_key))
+    parts = rel_prefix.strip(os.sep).split(os.sep)
+    if len(parts) == 1:
+        return _DIR_OF.get(parts[0], lambda _p: False)(p)
+    if len(parts) == 2 and parts[0] == "outputs":
+        return p[0] in ("cell", "dictArr") and p[1] == parts[1]
+    return False
+
+
+def loss_points(lost):
+    """Crash points (k, None) that cover every window of `lost_at`: the first and the last prefix of every maximal run of
+    prefixes with the same non-empty set of lost files."""
+    pts, k = [], 0
+    while k < len(lost):
+        if lost[k]:
+            j = k
+            while j + 1 < len(lost) and lost[j + 1] == lost[k]:
+                j += 1
+            pts += [k] if j == k else [k, j]
+            k = j + 1
+        else:
+            k += 1
+    return pts
 
 
 def snapshot(folder, dst):
